@@ -125,7 +125,7 @@ def tlc_mc(module, cfg, name, workers=8, timeout=900, coverage=False, expect_err
         if "Parsing or semantic analysis failed" in out or "ConfigFileException" in out:
             log(out[-3000:])
             raise ToolError("TLC could not parse %s/%s" % (module, cfg))
-    if not ok and not ("is violated" in out or "Deadlock reached" in out):
+    if not ok and not ("is violated" in out or "Deadlock reached" in out or "Temporal properties were violated" in out):
         # anything but a property counterexample (evaluation error, unfingerprintable value, ...) is a defect of
         # the specification / configuration, not a result
         log(out[-3000:])
